@@ -82,7 +82,7 @@ def run(ck):
       tr, leaks = run_with_probes(cls, d, list(perm), cycles)
       if leaks:
         ck.violation('visible-before-edge', {'what': 'a signal changed between ff blocks, before the flip'},
-                     {'source': src, 'ff_order': list(perm), 'inputs': cycles}, {'leaks': leaks[:1], 'signals': [s.path for s in d.sigs]})
+                     {'source': src, 'ff_order': list(perm), 'inputs': cycles, 'signals': [s_.path for s_ in d.sigs]}, {'leaks': leaks[:1], 'signals': [s.path for s in d.sigs]})
       runs.append(('probe', comb_order, list(perm), tr))
     regs_cross = any(True for b in d.blocks if b['kind'] == 'ff' for (_, e) in b['asgs']
                      for r in rtlgen.expr_reads(e, []) if r[0] in d.regs)
@@ -93,12 +93,12 @@ def run(ck):
       if r[3] != base[3]:
         k = next(i for i, (x, y) in enumerate(zip(r[3], base[3])) if x != y)
         ck.violation('ff-order-changes-result', {'flows': [base[0], r[0]]},
-                     {'source': src, 'ff_a': base[2], 'ff_b': r[2], 'inputs': cycles},
+                     {'source': src, 'ff_a': base[2], 'ff_b': r[2], 'inputs': cycles, 'signals': [s_.path for s_ in d.sigs]},
                      {'cycle': k, 'a': base[3][k], 'b': r[3][k], 'signals': [s.path for s in d.sigs],
                       'oracle': 'every order of the update_ff blocks must give the same state'})
     if base[3] != [(a, b) for a, b in ref_trace]:
       k = next(i for i, (x, y) in enumerate(zip(base[3], ref_trace)) if tuple(x) != tuple(y))
-      ck.violation('not-F-of-pre-edge-state', {'flow': base[0]}, {'source': src, 'inputs': cycles},
+      ck.violation('not-F-of-pre-edge-state', {'flow': base[0]}, {'source': src, 'inputs': cycles, 'signals': [s_.path for s_ in d.sigs]},
                    {'cycle': k, 'impl': base[3][k], 'ref': ref_trace[k], 'signals': [s.path for s in d.sigs],
                     'oracle': 'state after the tick = next-state functions evaluated on pre-edge values only (last assignment wins, unassigned holds)'})
     for r in runs:
@@ -109,10 +109,10 @@ def run(ck):
     got = rtlgen.parse_sim_reply(rep)
     if got != r[3]:
       k = next((i for i, (x, y) in enumerate(zip(got, r[3])) if tuple(x) != tuple(y)), -1) if not isinstance(got, tuple) else -1
-      ck.disagreement('Model/Rtl tick≈sim_tick', {'source': src, 'flow': r[0], 'ff': list(r[2]), 'inputs': cycles},
+      ck.disagreement('Model/Rtl tick≈sim_tick', {'source': src, 'flow': r[0], 'ff': list(r[2]), 'inputs': cycles, 'signals': [s_.path for s_ in d.sigs]},
                       got[k] if k >= 0 else rep, r[3][k] if k >= 0 else 'ran')
   ck.extra_cov['designs'] = n
 
 def replay(ck, data):
-  print(data['case'].get('source', '')); print(data['detail'])
-  return 1
+  print(data.get('kind'), data.get('signature')); print(str(data.get('detail'))[:1500])
+  return rtlgen.replay_source(ck, data.get('case') or {})
